@@ -100,7 +100,7 @@ Allowed(sg) == (AllowGap \/ ~IsGap(sg)) /\ (AllowWrap \/ ~IsWrap(sg))
 Capture(sg, isdup) ==
   /\ Allowed(sg)
   /\ Handle(sg)
-  /\ captured' = captured \cup {sg}
+  /\ captured' = (IF isdup THEN captured ELSE captured \cup {sg})     \* first captures only: a retransmission is not provenance
   /\ hist' = Append(hist, [st |-> sg.st, ln |-> sg.ln, dup |-> isdup, kf |-> Kind(sg)])
 
 (* ---------------- environment ---------------- *)
@@ -124,7 +124,13 @@ ReleaseHeld == \E sg \in held :
 Dup == /\ dups < MaxDup
        /\ \E sg \in captured : Capture(sg, TRUE) /\ dups' = dups + 1 /\ UNCHANGED <<isn, sent, held>>
 
-Next == SendInOrder \/ Hold \/ ReleaseHeld \/ Dup
+\* a retransmission that coalesces two adjacent already captured segments (same bytes, different packetization): TCP may do that;
+\* it starts at an already seen sequence number and carries nothing new
+DupCoalesced == /\ dups < MaxDup
+                /\ \E a, b \in captured : a.st + a.ln = b.st /\ a.ln + b.ln <= 2 * MaxSeg
+                      /\ Capture(Seg(a.st, a.ln + b.ln), TRUE) /\ dups' = dups + 1 /\ UNCHANGED <<isn, sent, held>>
+
+Next == SendInOrder \/ Hold \/ ReleaseHeld \/ Dup \/ DupCoalesced
 Spec == Init /\ [][Next]_vars
 
 (* ---------------- contract (what any correct reassembler guarantees) ---------------- *)
@@ -142,7 +148,7 @@ MetaIsOverlapSet == \A i \in 1..Len(released) :
 ReleaseMonotone == [][IsPrefix(released, released') /\ IsPrefix(meta, meta')]_vars
 
 TypeOK == /\ sent \in 0..Total /\ dups \in 0..MaxDup /\ garbage \in BOOLEAN
-          /\ \A sg \in held \cup captured \cup buf : sg.st \in 0..Total /\ sg.ln \in 1..MaxSeg
+          /\ \A sg \in held \cup captured \cup buf : sg.st \in 0..Total /\ sg.ln \in 1..(2 * MaxSeg)
 
 (* ---------------- views / behaviour export ---------------- *)
 View == <<envv, implv>>                               \* hides hist in exhaustive runs
